@@ -281,11 +281,86 @@ fn classify(_log: &[String], frame: &[String], _got: &[String], _want: &[String]
     }
 }
 
+// ------------------------------------------------------------------ tie of coq/model/Term.v to the vt100 crate
+const C01_HEADER: &str = "From IndModel Require Import TermCheck.\nFrom Coq Require Import String.\nOpen Scope string_scope.\nOpen Scope N_scope.\n";
+
+fn ctext(s: &str) -> String {
+    debug_assert!(s.is_ascii());
+    format!("(t \"{}\")", s.replace('"', "\"\""))
+}
+
+fn ctop(o: &TOp) -> Option<String> {
+    Some(match o {
+        TOp::Up(n) => format!("TUp {n}"),
+        TOp::Down(n) => format!("TDown {n}"),
+        TOp::Clear => "TClear".into(),
+        TOp::Line(s) => format!("TLine {}", ctext(s)),
+        TOp::Str(s) => format!("TStr {}", ctext(s)),
+        TOp::Flush => "TFlush".into(),
+        TOp::Left(_) | TOp::Right(_) => return None, // never emitted by draw_to_term (no such termop in Draw.v)
+    })
+}
+
+/// `TermCase W H ops vis cursor all top`: the Coq terminal (model/Term.v) must show what the vt100
+/// crate shows (visible rows, cursor) and what the reference terminal `Vt` of the oracles holds
+/// (all rows with scroll-back, first visible row) after executing the call stream `ops`.
+fn term_case(w: u16, h: u16, ops: &[TOp]) -> Option<String> {
+    let cops: Option<Vec<String>> = ops.iter().map(ctop).collect();
+    let cops = cops?;
+    let mut vt = Vt::new(w, h);
+    vt.feed(ops);
+    let all = vt.rows();
+    let (r, c) = vt.cursor();
+    // the vt100 crate overflows on 1-row terminals (debug build): no reference screen there
+    let reference = if h >= 2 {
+        catch(|| {
+            let mut v = Vt100::new(w, h);
+            v.feed(ops);
+            (v.visible_rows(), v.cursor())
+        })
+        .ok()
+    } else {
+        None
+    };
+    let (vis, cur) = match &reference {
+        Some((rows, (vr, vc))) => (
+            format!("(Some {})", clist(rows.iter().map(|x| ctext(x)))),
+            (*vr, *vc),
+        ),
+        None => ("None".to_string(), (r - vt.top, c)),
+    };
+    Some(format!(
+        "(TermCase {w} {h} {} {vis} ({}, {}) {} {})",
+        clist(cops),
+        cur.0,
+        cur.1,
+        clist(all.iter().map(|x| ctext(x))),
+        vt.top
+    ))
+}
+
+fn gen_stream(r: &mut Rng, w: u16) -> Vec<TOp> {
+    let len = r.range(1, 60);
+    (0..len)
+        .map(|_| {
+            let k = r.below(2 * w as u64 + 2) as usize;
+            match r.below(10) {
+                0 => TOp::Up(r.below(5) as usize),
+                1 => TOp::Down(r.below(4) as usize),
+                2 => TOp::Clear,
+                3..=4 => TOp::Line(gen_word(r, k)),
+                5..=8 => TOp::Str(gen_word(r, k)),
+                _ => TOp::Flush,
+            }
+        })
+        .collect()
+}
+
 fn main() {
     let a = args();
-    let mut s = Session::new(&a, "C01", COQ_HEADER, COQ_CASE_TY, COQ_CHECKER);
+    let mut s = Session::new(&a, "C01", C01_HEADER, "c01case", "c01_check");
     s.shard_size = 120;
-    s.rule = "single bar on a recording terminal (term_like, sometimes with a refresh limiter), template from the family {literal,msg,prefix,pos,len,spinner,newline}, 1..60 timed ops over tick/inc/dec/set_position/set_message/set_prefix/set_style/set_length/inc|dec|unset_length/println/suspend/reset*/finish*/abandon*/finish_using_style/force_draw/set_tab_width(/drop), texts with widths clustered at multiples of the terminal width, multi-line and empty; W in {1,2,3,4,5,7,10,20,80}; non-trivial = at least 3 ops and at least one painted draw; distinct = distinct case text".into();
+    s.rule = "(1) single bar on a recording terminal (term_like, sometimes with a refresh limiter), template from the family {literal,msg,prefix,pos,len,spinner,newline}, 1..60 timed ops over tick/inc/dec/set_position/set_message/set_prefix/set_style/set_length/inc|dec|unset_length/println/suspend/reset*/finish*/abandon*/finish_using_style/force_draw/set_tab_width(/drop), texts with widths clustered at multiples of the terminal width, multi-line and empty; W in {1,2,3,4,5,7,10,20,80}; non-trivial = at least 3 ops and at least one painted draw; distinct = distinct case text. (2) TermCase: the TermLike call stream observed in every third history, and random call streams (W 1..12, H 1..8: up/down/clear_line/write_line/write_str/flush), executed by coq/model/Term.v and compared with the visible rows + cursor of the vt100 crate and with all rows (scroll-back) of the harness reference terminal".into();
     let mut r = Rng::new(a.seed);
     let mut cases: Vec<Case> = corpus();
     let n = if a.thorough { 6000 } else if a.extended { 3000 } else { 600 };
@@ -293,6 +368,7 @@ fn main() {
         cases.push(gen_case(&mut r, a.thorough));
     }
     let mut checked_total = 0;
+    let mut term_seq = 0u64;
     for case in &cases {
         let obs = run_case(case);
         let desc = describe(case);
@@ -310,7 +386,28 @@ fn main() {
         s.count_n("painted_draws", painted as u64);
         s.count_n("skipped_draw_ops", obs.iter().filter(|o| o.emitted.is_empty()).count() as u64);
         let nontrivial = case.ops.len() >= 3 && painted >= 1;
-        s.case(coq_case(case, &obs), desc, nontrivial);
+        s.case(format!("(SysCase {})", coq_case(case, &obs)), desc.clone(), nontrivial);
+        // the observed call stream of every third history also ties Term.v to the vt100 crate
+        term_seq += 1;
+        if term_seq % 3 == 0 && obs.iter().all(|o| o.panic.is_none()) {
+            let all_ops: Vec<TOp> = obs.iter().flat_map(|o| o.emitted.iter().cloned()).collect();
+            if let Some(tc) = term_case(case.w, case.h, &all_ops) {
+                s.count("termcase:observed-stream");
+                s.case(tc, format!("TERM (observed TermLike stream of) {desc}"), all_ops.len() >= 5);
+            }
+        }
+    }
+    // random TermLike call streams on small terminals (scrolling, clamped cursor moves, overwrites)
+    let nt = if a.thorough { 3000 } else if a.extended { 1500 } else { 400 };
+    for _ in 0..nt {
+        let w = r.range(1, 12) as u16;
+        let h = r.range(1, 8) as u16;
+        let ops = gen_stream(&mut r, w);
+        if let Some(tc) = term_case(w, h, &ops) {
+            s.count("termcase:random-stream");
+            s.count(&format!("termcase:H{}", if h == 1 { "=1(no vt100 reference)" } else { ">=2" }));
+            s.case(tc, format!("TERM W={w} H={h} stream={:?}", ops), ops.len() >= 5);
+        }
     }
     s.count_n("oracle_screen_checks", checked_total);
     s.finish();
